@@ -78,8 +78,10 @@ impl<T: Copy> Block for VectorSink<T> {
         if n > 0 {
             storage.0.extend(&i.slice()[..n]);
             storage.1.extend(tags);
-            i.consume(ilen);
         }
+        // Samples beyond max_size are discarded, like the rest of the window
+        // in which the limit was reached.
+        i.consume(ilen);
         Ok(BlockRet::WaitForStream(&self.src, 1))
     }
 }
